@@ -270,6 +270,32 @@ def measures_lattice(ctx):
             if hasattr(P, "centroid"):
                 ok = ok and Q.centroid == fresh.centroid
             ctx.ensure("polygon-queried-before-the-motion==polygon-moved-first", ok, witness=dict(motion=k + 1, polygon=type(P).__name__))
+    # quadrilaterals that are NOT rectangles reach the class Rectangle through indexing / facets: their area is still the shoelace area
+    from geometer.shapes import PolygonCollection
+    quads = [[(0, 0), (4, 0), (3, 2), (1, 2)], [(0, 0), (3, 1), (4, 4), (-1, 2)], [(0, 0), (2, -1), (4, 0), (2, 3)], [(1, 1), (5, 1), (6, 3), (2, 3)]]
+    qc = PolygonCollection(np.array([[list(v) + [1.0] for v in q] for q in quads]))
+    for i, q in enumerate(quads):
+        want = abs(_shoelace2(q)) / 2
+        el = qc[i]
+        ctx.ensure("quadrilateral-reached-by-indexing:area==shoelace", abs(float(el.area) - want) < 1e-9 and abs(float(qc.area[i]) - want) < 1e-9 and abs(float(list(qc)[i].area) - want) < 1e-9,
+                   witness=dict(quadrilateral=q, cls=type(el).__name__, got=float(el.area), want=want))
+    O = g.Point(0, 0, 0)
+    sheared = Cuboid(O, g.Point(2, 0, 0), g.Point(1, 2, 0), g.Point(0.5, 0.5, 3))  # a parallelepiped: its faces are parallelograms
+    fa = [float(f.area) for f in sheared.faces]
+    a_, b_, c_ = np.array([2.0, 0, 0]), np.array([1.0, 2, 0]), np.array([0.5, 0.5, 3])
+    wantp = 2 * (np.linalg.norm(np.cross(a_, b_)) + np.linalg.norm(np.cross(b_, c_)) + np.linalg.norm(np.cross(a_, c_)))
+    ctx.ensure("parallelepiped:faces-and-total-area", abs(sum(fa) - wantp) < 1e-6 and abs(float(sheared.area) - wantp) < 1e-6, witness=dict(faces=fa, total=float(sheared.area), want=float(wantp)))
+    # a polyhedron that was queried before it is moved
+    for k, t in enumerate(motions[1:4]):
+        c0 = Cuboid(O, g.Point(2, 0, 0), g.Point(0, 1, 0), g.Point(0, 0, 3))
+        ln = g.Line(g.Point(1, 0.5, -5), g.Point(1, 0.5, 5))
+        _ = c0.faces, c0.area, c0.edges, c0.vertices, c0.intersect(ln)
+        moved = t * c0
+        fresh = t * Cuboid(O, g.Point(2, 0, 0), g.Point(0, 1, 0), g.Point(0, 0, 3))
+        got = sorted(tuple(np.round(np.real(x.normalized_array[:3]), 6)) for x in moved.intersect(t * ln))
+        want_pts = sorted(tuple(np.round(np.real((t * g.Point(1, 0.5, z)).normalized_array[:3]), 6)) for z in (0, 3))
+        ok = moved == fresh and abs(float(moved.area) - 22) < 1e-6 and moved.faces == fresh.faces and np.allclose(got, want_pts, atol=1e-5)
+        ctx.ensure("polyhedron-queried-before-the-motion==polyhedron-moved-first", ok, witness=dict(motion=k + 1, area=float(moved.area), got=str(got)))
     for (a, b, c) in itertools.product((1, 2, 3.5), repeat=3):
         for o in [(0, 0, 0), (1, -2, 3), (-1, -1, -1), (0.5, 0, 2)]:
             O = g.Point(*o)
